@@ -223,7 +223,7 @@ def find(fn, class_attrs=()):
         lazy = False
         for tst, pol in cfg.guards.get(id(s), ()):
             tt = ast.unparse(tst)
-            if (tt == f'self.{a} is None' and pol) or (tt == f'self.{a} is not None' and not pol) or (tt in (f"hasattr(self, '{a}')", f'hasattr(self, "{a}")') and not pol) or (tt in (f"not hasattr(self, '{a}')",) and pol):
+            if (tt in (f"getattr(self, '{a}', None) is None", f'getattr(self, "{a}", None) is None') and pol) or (tt == f'self.{a} is None' and pol) or (tt == f'self.{a} is not None' and not pol) or (tt in (f"hasattr(self, '{a}')", f'hasattr(self, "{a}")') and not pol) or (tt in (f"not hasattr(self, '{a}')",) and pol):
                 lazy = True
         if not lazy:
             continue
